@@ -105,7 +105,7 @@ pub fn c01(tier: Tier) -> i32 {
         "refmodel is a faithful reading of TOML 1.0.0 (validated against the toml-test corpus at setup and against tomllib in the thorough tier)".into(),
         "class U1 documents are skipped and counted (DESIGN.md 3.3)".into(),
     ];
-    docu::run(&mut rep, tier, &["tok", "ctx", "esc", "num", "edge", "dt", "stmt", "inline-stmt", "byte", "corpus", "decor", "cp", "utf8", "nest", "reopen"], &c01_eval);
+    docu::run(&mut rep, tier, &["tok", "ctx", "esc", "num", "edge", "dt", "stmt", "inline-stmt", "byte", "corpus", "decor", "cp", "utf8", "nest", "reopen", "stmt-values"], &c01_eval);
     rep.finish()
 }
 
@@ -371,7 +371,30 @@ pub fn c02(tier: Tier) -> i32 {
         "the position of a super-table that is first created implicitly and later defined by its own header is not constrained (source order is ambiguous there)".into(),
         "toml::Table (BTreeMap in the default configuration) is compared modulo key order; order is compared on the toml_edit trees".into(),
     ];
-    docu::run(&mut rep, tier, &["tok", "ctx", "esc", "num", "edge", "dt", "stmt", "stmt3", "inline-stmt", "corpus", "decor", "cp", "reopen"], &c02_eval);
+    docu::run(&mut rep, tier, &["tok", "ctx", "esc", "num", "edge", "dt", "stmt", "stmt3", "inline-stmt", "corpus", "decor", "cp", "reopen", "stmt-values"], &c02_eval);
+    // "the source order of keys" is only observable through toml::Table when it keeps insertion order: the cfg engine's
+    // binary built with `preserve_order` decodes its whole battery and compares the order of every table's value
+    // entries with the specification model's
+    {
+        let t0 = std::time::Instant::now();
+        match crate::c18::build("tm-preserve", "tm_parse tm_display tm_preserve").and_then(|exe| crate::c18::run("tm-preserve", &exe)) {
+            Err(e) => {
+                println!("MACHINERY-ERROR preserve_order build failed: {}", e.lines().last().unwrap_or(""));
+                return 2;
+            }
+            Ok(r) => {
+                let n = r.counts.get("tm.verdict").copied().unwrap_or(0);
+                let mut acc = Acc::default();
+                acc.evals = n;
+                acc.nontrivial_overflow = n;
+                acc.sample(|| "toml::Table[preserve_order]: `[t]` / `b = 1` / `a = 2` keeps b before a".to_string());
+                for v in r.viols.iter().filter(|v| v.contains("source order")) {
+                    acc.viol("U-preserve-order", v.chars().take(240).collect::<String>(), None, v.clone());
+                }
+                rep.absorb("U-preserve-order", &format!("{} battery documents decoded in the preserve_order build: the value entries of every table in source order", n), n, true, t0, acc);
+            }
+        }
+    }
     rep.finish()
 }
 
@@ -445,7 +468,7 @@ pub fn c09(tier: Tier) -> i32 {
         "every sequence of <= N statements from {[p], [[p]], p = 1, p = {b.a = 1}, p = [1]} over all key paths of the stated alphabet is parsed by the real parser; verdict, error class and merged tree are compared with the specification model's definition-rule engine; non-trivial = distinct sequences that the model rejects, or accepts with >= 2 statements; the outcome histogram is keyed by the rule that fired",
     );
     rep.assumptions = vec!["refmodel's definition-rule engine (DESIGN.md 3.2) is a faithful reading of TOML 1.0.0".into(), "class U1 sequences are skipped and counted".into()];
-    docu::run(&mut rep, tier, &["stmt", "stmt3", "inline-stmt", "tok-small", "decor", "reopen"], &c09_eval);
+    docu::run(&mut rep, tier, &["stmt", "stmt3", "inline-stmt", "tok-small", "decor", "reopen", "stmt-values"], &c09_eval);
     rep.finish()
 }
 
